@@ -89,6 +89,17 @@ def judge_single(ctx, res, case, cs):
 
 def gen_case(ctx, rng):
     big = ctx.thorough or ctx.deep
+    k = rng.random()
+    if k < 0.12:
+        # INHERIT chains with gains (depth >= 4, clade-confined families, tie-prone costs): the inputs on which the
+        # unordered decoder's materialised contents matter for the cost
+        c = gen.sibling_inherit_case(rng)
+        c.pop("only", None)
+        return c
+    if k < 0.2:
+        c = gen.clade_case(rng, 6, 8, 3, rng.randint(3, 4), True)
+        c.pop("only", None)
+        return c
     if big and rng.random() < 0.3:
         return gen.rand_case(rng, 10, 8, rng.randint(1, 4), plain=False)
     if rng.random() < 0.5:
